@@ -50,7 +50,8 @@ def CONCATENATE(*args):
         return arg
 
     try:
-        return ''.join((str(a) if not isinstance(test_arg(a), string_types) else a for a in utils.iflatten(args)))
+        # a blank item contributes nothing
+        return ''.join((str(a) if not isinstance(test_arg(a), string_types) else a for a in utils.iflatten(args) if a is not None))
     except XLError as xle:
         return xle
 
